@@ -33,6 +33,66 @@ fn array_paths(v: &Value, prefix: String, out: &mut Vec<String>) {
     }
 }
 
+/// All JSON-pointer paths to strings made only of '0'/'1' (serialised `Bits`, MSB first).
+fn bitstring_paths(v: &Value, prefix: String, out: &mut Vec<String>) {
+    match v {
+        Value::String(s) => {
+            if s.len() > 1 && s.bytes().all(|b| b == b'0' || b == b'1') {
+                out.push(prefix);
+            }
+        }
+        Value::Array(a) => {
+            for (i, x) in a.iter().enumerate() {
+                bitstring_paths(x, format!("{}/{}", prefix, i), out);
+            }
+        }
+        Value::Object(o) => {
+            for (k, x) in o {
+                bitstring_paths(x, format!("{}/{}", prefix, k.replace('~', "~0").replace('/', "~1")), out);
+            }
+        }
+        _ => {}
+    }
+}
+
+/// Shorten bit strings (drop most significant bits, then clear set bits) while the same
+/// signature keeps failing.
+fn shrink_bits<P: Property>(p: &P, cur: &mut Value, sig: &str, budget: &mut i32) -> bool {
+    let mut progress = false;
+    let mut paths = Vec::new();
+    bitstring_paths(cur, String::new(), &mut paths);
+    for path in paths {
+        loop {
+            let Some(Value::String(s)) = cur.pointer(&path) else { break };
+            let s = s.clone();
+            if s.len() <= 1 || *budget <= 0 {
+                break;
+            }
+            let mut done = false;
+            for keep in [s.len() / 2, s.len() - 1] {
+                if keep == 0 || keep >= s.len() {
+                    continue;
+                }
+                let mut cand = cur.clone();
+                if let Some(x) = cand.pointer_mut(&path) {
+                    *x = Value::String(s[s.len() - keep..].to_string());
+                }
+                *budget -= 1;
+                if fails_same(p, &cand, sig) {
+                    *cur = cand;
+                    progress = true;
+                    done = true;
+                    break;
+                }
+            }
+            if !done {
+                break;
+            }
+        }
+    }
+    progress
+}
+
 pub fn minimize<P: Property>(p: &P, case: Value) -> (Value, Option<String>) {
     let Ok(c0) = serde_json::from_value::<P::Case>(case.clone()) else { return (case, None) };
     let mut st = Stats::new();
@@ -44,7 +104,7 @@ pub fn minimize<P: Property>(p: &P, case: Value) -> (Value, Option<String>) {
     let mut progress = true;
     let mut budget = 3000;
     while progress && budget > 0 {
-        progress = false;
+        progress = shrink_bits(p, &mut cur, &sig, &mut budget);
         let mut paths = Vec::new();
         array_paths(&cur, String::new(), &mut paths);
         // longest arrays first (the op list)
